@@ -77,7 +77,7 @@ def contracts():
     c["Certificate::get_crt_dir"] = FnSpec(ret="r", sig="""
     ensures r@ == (match self.directory { Some(d) => d@, None => match cnf.global {
                 Some(g) => (match g.certificates_directory { Some(d) => d@, None => crate::DEFAULT_CERT_DIR@ }),
-                None => crate::DEFAULT_CERT_DIR@ } }), //@C14.certificate_over_global_directory
+                None => crate::DEFAULT_CERT_DIR@ } }), //@C14.certificate_over_global_directory,C02.certificate_over_global_directory,C03.certificate_over_global_directory
 """)
     c["Config::get_account_dir"] = FnSpec(ret="r", sig="""
     ensures r@ == (match self.global { Some(g) => (match g.accounts_directory { Some(d) => d@, None => crate::DEFAULT_ACCOUNTS_DIR@ }),
@@ -344,7 +344,7 @@ pub fn parse_duration(input: &str) -> (r: Result<Duration, Error>)
 // the built-in defaults are the documented ones (acmed.toml(5)): the contracts above speak of `the default`, this says which
 pub proof fn documented_defaults()
     ensures
-        crate::DEFAULT_HOOK_ALLOW_FAILURE == false, //@C10.a_hook_may_fail_only_when_allow_failure_says_so_by_default_it_may_not
+        crate::DEFAULT_HOOK_ALLOW_FAILURE == false, //@C10.a_hook_may_fail_only_when_allow_failure_says_so_by_default_it_may_not,C05.a_hook_may_fail_only_when_allow_failure_says_so_by_default_it_may_not,C07.a_hook_may_fail_only_when_allow_failure_says_so_by_default_it_may_not
         crate::DEFAULT_CERT_FILE_MODE == 0o644 && crate::DEFAULT_PK_FILE_MODE == 0o600, //@C13.default_modes_are_0644_and_0600
         crate::DEFAULT_CERT_RENEW_DELAY == 30 * 24 * 60 * 60 && crate::DEFAULT_CERT_RANDOM_EARLY_RENEW == 0, //@C06.default_renew_delay_is_30_days_no_early_renewal,C14.default_renew_delay_is_30_days_no_early_renewal
 {}
